@@ -1274,6 +1274,12 @@ func initStartsEmpty(in *ssa.Function) bool {
 			if bi, ok := x.Common().Value.(*ssa.Builtin); ok && bi.Name() == "append" && len(x.Common().Args) > 0 {
 				return rooted(x.Common().Args[0])
 			}
+			// a helper that grows the list it is handed and hands it back: decode(s.params[:0], query)
+			if g := x.Common().StaticCallee(); g != nil && len(g.Blocks) > 0 {
+				if j := growsOwnParam(g); j >= 0 && j < len(x.Common().Args) {
+					return rooted(x.Common().Args[j])
+				}
+			}
 		case *ssa.Phi:
 			for _, e := range x.Edges {
 				if !rooted(e) {
@@ -1298,4 +1304,58 @@ func initStartsEmpty(in *ssa.Function) bool {
 		}
 	}
 	return true
+}
+
+// growsOwnParam: the index of the slice parameter that every value g returns (single result) descends from through
+// append, reslicing and the choices of phis; -1 if there is none.
+func growsOwnParam(g *ssa.Function) int {
+	if g.Signature.Results().Len() != 1 {
+		return -1
+	}
+	idx := -1
+	ok := true
+	seen := map[ssa.Value]bool{}
+	var walk func(v ssa.Value)
+	walk = func(v ssa.Value) {
+		if !ok || seen[v] {
+			return
+		}
+		seen[v] = true
+		switch x := v.(type) {
+		case *ssa.Parameter:
+			for i, p := range g.Params {
+				if p == x {
+					if idx >= 0 && idx != i {
+						ok = false
+					}
+					idx = i
+					return
+				}
+			}
+			ok = false
+		case *ssa.Call:
+			if bi, isB := x.Common().Value.(*ssa.Builtin); isB && bi.Name() == "append" && len(x.Common().Args) > 0 {
+				walk(x.Common().Args[0])
+				return
+			}
+			ok = false
+		case *ssa.Phi:
+			for _, e := range x.Edges {
+				walk(e)
+			}
+		case *ssa.Slice:
+			walk(x.X)
+		default:
+			ok = false
+		}
+	}
+	for _, b := range g.Blocks {
+		if r, isRet := b.Instrs[len(b.Instrs)-1].(*ssa.Return); isRet {
+			walk(r.Results[0])
+		}
+	}
+	if !ok {
+		return -1
+	}
+	return idx
 }
